@@ -16,4 +16,14 @@ SPECS = {
         dict(cls='WoehlerCurvePRAJ', prefix='prajx_', ctor_params=PRAJ, obj_attr='_obj', skip_attrs=['_obj'],
              methods=['calc_N']),
     ]),
+    'GenFKMLoadDistribution': (os.path.join(ST, 'fkm_load_distribution.py'), [
+        dict(cls='FKMLoadSequence', prefix='fkmload', ctor_params=[], arg_objs=['input_parameters'], methods=['_get_beta']),
+        dict(cls='FKMLoadDistributionNormal', prefix='fkmnormal_', ctor_params=[], arg_objs=['input_parameters'],
+             skip_calls=['_validate_parameters'], param_calls={'_get_beta': 'beta', 'maximum_absolute_load': 'L_max'},
+             methods=['gamma_L']),
+        dict(cls='FKMLoadDistributionLognormal', prefix='fkmlognormal_', ctor_params=[], arg_objs=['input_parameters'],
+             skip_calls=['_validate_parameters'], param_calls={'_get_beta': 'beta'}, methods=['gamma_L']),
+        dict(cls='FKMLoadDistributionBlanket', prefix='fkmblanket_', ctor_params=[], arg_objs=['input_parameters'],
+             skip_calls=['_validate_parameters'], methods=['gamma_L']),
+    ]),
 }
